@@ -49,6 +49,14 @@ def generate_all():
                 s, o, c = src.find_fn(r["fn"], r.get("within"), r.get("fn_ordinal", 0))
                 text = src.text[o + 1:c]
                 lines = (src.line_of(o), src.line_of(c))
+            elif r.get("loop_body") is not None:
+                # the body of the n-th loop of the function (between its braces)
+                la, le = src.nth_loop(r["fn"], r["loop_body"], r.get("within"), r.get("fn_ordinal", 0))
+                k = src.masked.index("{", la)
+                while src.match_close(k) != le - 1:
+                    k = src.masked.index("{", k + 1)
+                text = src.text[k + 1:le - 1].strip("\n")
+                lines = (src.line_of(k), src.line_of(le - 1))
             else:
                 text, lines = src.region(r["fn"], r.get("first"), r.get("last"), r.get("within"), r.get("fn_ordinal", 0), r.get("first_ordinal", 0), r.get("until"), r.get("after_loop"))
             pre = r.get("prelude", "")
